@@ -135,6 +135,11 @@ func (f Valuer) Value() (driver.Value, error) {
 		return f.value.Float(), nil
 	case reflect.String:
 		return f.value.String(), nil
+	case reflect.Slice:
+		// A named type over []byte (type Blob []byte) is written as its bytes.
+		if f.value.Type().Elem().Kind() == reflect.Uint8 {
+			return f.value.Bytes(), nil
+		}
 	}
 
 	// If we can't figure out what the type is supposed to be, we pass it straight through to SQL,
